@@ -1,4 +1,5 @@
 from sqv.driver import Obligation
+from sqv.props.c06 import lrc_precheck
 
 
 def plan(ctx):
@@ -11,14 +12,26 @@ def plan(ctx):
     obs.append(Obligation("action.call_spellings", "xh", "c15", "call_spellings", timeout=T, bounds="0..3 extra arguments",
                           desc="r.f(a), r | f(a), f(r, a) build the same CallOp"))
     obs.append(Obligation("action.group", "xh", "c15", "group_is_transparent", timeout=T, bounds="-", desc="group production returns the inner tree"))
+    quick = ctx["tier"] == "quick"
+    for q, desc in (("rw_newline", "an extra statement separator (start, end, next to another one) never changes acceptance"),
+                    ("rw_comma_removed", "a trailing comma before a closing bracket can be removed"),
+                    ("rw_comma_added", "where an optional-trailing-comma production was used, adding the comma keeps acceptance"),
+                    ("rw_parens", "parenthesising the text of any subexpression keeps acceptance"),
+                    ("rw_dot_pipe", "r.f(a..) and r | f(a..) are interchangeable")):
+        for sl, (lq, lt) in {"full_noreserved": (5, 7), "brackets": (7, 9), "operators": (6, 8)}.items():
+            L = lq if quick else lt
+            obs.append(Obligation(f"lrc.{q}.{sl}", "z3", "lrc_checks", q, param={"L": L, "slice": sl}, timeout=300 if quick else 1500, twin_timeout=0,
+                                  bounds=f"all token strings of length <= {L} over the {sl} alphabet (the rewritten string is 1-2 tokens longer)",
+                                  desc="two charts over a string and its rewrite: " + desc))
     return {
+        "precheck": lrc_precheck,
         "obligations": obs,
         "explanation": "CrossHair (z3) symbolic execution of the real grammar actions (p_* functions) on production stand-ins with "
                        "argument lists of symbolic length.",
         "functions": ["smartquery.rules.p_expression_call", "p_expression_method_call", "p_list_literal", "p_dict_literal", "p_expression_group"],
         "files": ["smartquery/rules.py", "smartquery/lexer.py"],
         "bounds": "argument lists <= 4",
-        "outside": "token-level (LRC) and text-level (LXC) halves: see evidence keys added by those engines",
+        "outside": "token level decides ACCEPTANCE invariance of the rewrites (tree equality rests on the action-level obligations: equal children give equal trees); text level (spaces, comments, CRLF, line breaks in brackets) is the LXC half",
         "stubs": ["YaccProduction stand-in"],
         "assumptions": ["CrossHair's model of list/str"],
         "trusted": ["CrossHair 0.0.110", "z3"],
